@@ -469,3 +469,37 @@ def value_preservation(sc, inst, old_cores, truncating=False, skip_last=False):
         else:
             bad.append(f'{what}: the product of the new cores is  {mx.show(ma_c)}  but the cores they replace give  {mx.show(mb_c)}')
     return bad, unknown, n
+
+
+def data_event_findings(run, prop, rule, repo, sc, scen, mods):
+    """rules on how the caller's DATA arrays (no tensor-train indices) are read: (a) flattening in memory order ('K' / 'A') puts the entries of a transposed view or a
+    Fortran-ordered matrix into other (coordinate, snapshot) slots than those of the same matrix stored row-major; (b) np.vectorize without otypes fixes the dtype of all
+    values by the first one"""
+    for e in sc.ctx.events:
+        k = e['kind']
+        if not in_modules(e, mods):
+            continue
+        if k == 'layout-dependent' and isinstance(e.get('array'), Arr) and not any(l.resolve().kind in ('R', 'M') for g in e['array'].legs for l in g):
+            where, cons, f, ln = ev_where(repo, e, mods)
+            run.oblige(rule, (where, cons, 'data layout'), False)
+            run.add(Finding(prop, rule, where, cons, f"{scen}: a data array is flattened in memory order: for a transposed view or a Fortran-ordered data matrix (the same numbers, the same "
+                            f"shape) the entries land in other (coordinate, snapshot) positions -- {e['detail'][:120]}", f, ln, {'scenario': scen}))
+        elif k == 'vectorize-otypes':
+            where, cons, f, ln = ev_where(repo, e, mods)
+            run.oblige(rule, (where, cons, 'vectorize'), False)
+            run.add(Finding(prop, rule, where, cons, f"{scen}: a caller-supplied basis function is wrapped in {e['detail']}", f, ln, {'scenario': scen}))
+
+
+def explore_data(run, prop, rule, repo, body, scen, mods, **kw):
+    """l2.explore with the data-handling rules applied to every path -- also to the path on which the analysis gave up (the events recorded until then stand)"""
+    from . import l2
+    try:
+        paths = l2.explore(repo, body, **kw)
+    except AnalysisError as ex:
+        sc = getattr(ex, 'scenario', None)
+        if sc is not None:
+            data_event_findings(run, prop, rule, repo, sc, scen, mods)
+        raise
+    for item in list.__iter__(paths):
+        data_event_findings(run, prop, rule, repo, item[1], scen, mods)
+    return paths
